@@ -158,56 +158,78 @@ func poseidonDrv(raw json.RawMessage, resp *drv.Response) error {
 				return nil
 			})
 		}
-		h := &engine.Config{Mode: engine.Native}
-		if err := perm(h); err != nil {
-			return fmt.Errorf("honest permutation rejected: %s", firstLine(err))
+		// the same for the sponge entry point, whose inputs are reduced before absorption (HashNoPad): a few inputs are given as value + k*p
+		hin := make([]*big.Int, 11)
+		for i := range hin {
+			hin[i] = drv.RandBelow(rng, bigP)
+			if i%3 == 0 {
+				hin[i] = new(big.Int).Add(hin[i], new(big.Int).Mul(big.NewInt(int64(1+i)), bigP))
+			}
 		}
-		total := h.Counters["hint:ReduceHint"] + h.Counters["hint:MulAddHint"] + h.Counters["hint:SplitLimbsHint"]
-		idx := map[int]bool{}
-		for i := 1; i <= 40 && i <= total; i++ {
-			idx[i] = true
+		hash := func(cfg *engine.Config) error {
+			return hc.Run(cfg, hin, func(api frontend.API, in []frontend.Variable) error {
+				vs := make([]gl.Variable, len(in))
+				for i := range vs {
+					vs[i] = gl.NewVariable(in[i])
+				}
+				poseidon.NewGoldilocksChip(api).HashNoPad(vs)
+				return nil
+			})
 		}
-		for i := 0; i < 60+req.NRandom; i++ {
-			idx[1+rng.Intn(total)] = true
-		}
-		for g := range idx {
-			for _, strat := range []string{"k1", "k2", "q-1", "hi-1"} {
-				applied, trivial := false, false
-				cfg := &engine.Config{Mode: engine.Native, Permissive: true, AbortAfterLocal: true, TargetGlobal: g}
-				var site string
-				cfg.Strategy = func(c *engine.HintCall) []*big.Int {
-					applied = true
-					site = c.Name + "@" + c.Site
-					out := hintStrategy(strat, c)
-					if out == nil {
-						trivial = true
-						return nil
-					}
-					same := c.Honest != nil
-					for i := range out {
-						if same && new(big.Int).Mod(out[i], bigR).Cmp(c.Honest[i]) != 0 {
-							same = false
+		for ri, run := range []func(cfg *engine.Config) error{perm, hash} {
+			perm := run
+			what := []string{"one permutation", "HashNoPad of 11 inputs"}[ri]
+			h := &engine.Config{Mode: engine.Native}
+			if err := perm(h); err != nil {
+				return fmt.Errorf("honest permutation rejected: %s", firstLine(err))
+			}
+			total := h.Counters["hint:ReduceHint"] + h.Counters["hint:MulAddHint"] + h.Counters["hint:SplitLimbsHint"]
+			idx := map[int]bool{}
+			for i := 1; i <= 40 && i <= total; i++ {
+				idx[i] = true
+			}
+			for i := 0; i < 60+req.NRandom; i++ {
+				idx[1+rng.Intn(total)] = true
+			}
+			for g := range idx {
+				for _, strat := range []string{"k1", "k2", "q-1", "hi-1"} {
+					applied, trivial := false, false
+					cfg := &engine.Config{Mode: engine.Native, Permissive: true, AbortAfterLocal: true, TargetGlobal: g}
+					var site string
+					cfg.Strategy = func(c *engine.HintCall) []*big.Int {
+						applied = true
+						site = c.Name + "@" + c.Site
+						out := hintStrategy(strat, c)
+						if out == nil {
+							trivial = true
+							return nil
 						}
+						same := c.Honest != nil
+						for i := range out {
+							if same && new(big.Int).Mod(out[i], bigR).Cmp(c.Honest[i]) != 0 {
+								same = false
+							}
+						}
+						trivial = same
+						return out
 					}
-					trivial = same
-					return out
-				}
-				_ = perm(cfg)
-				if !applied || trivial {
-					continue
-				}
-				resp.Count(fmt.Sprintf("glunique/%d/%s/%v", g, strat, st[0]), false)
-				if cfg.LocalAccepted {
-					short := site
-					if i := strings.Index(site, "<-poseidon.(*GoldilocksChip).Poseidon"); i > 0 {
-						short = site[:i]
+					_ = perm(cfg)
+					if !applied || trivial {
+						continue
 					}
-					resp.Violate("c09/unique/second-output site="+short+" strat="+strat,
-						fmt.Sprintf("hint %d of one permutation (%s): the alternative %s satisfies the local constraints - the permutation accepts a second output for the same input", g, site, strat), map[string]any{"global": g, "strat": strat})
+					resp.Count(fmt.Sprintf("glunique/%d/%s/%v", g, strat, st[0]), false)
+					if cfg.LocalAccepted {
+						short := site
+						if i := strings.Index(site, "<-poseidon.(*GoldilocksChip).Poseidon"); i > 0 {
+							short = site[:i]
+						}
+						resp.Violate("c09/unique/second-output site="+short+" strat="+strat,
+							fmt.Sprintf("hint %d of "+what+" (%s): the alternative %s satisfies the local constraints - the permutation accepts a second output for the same input", g, site, strat), map[string]any{"global": g, "strat": strat})
+					}
 				}
 			}
 		}
-		resp.Sample(map[string]any{"hints_in_one_permutation": total, "sites_sampled": len(idx)})
+		resp.Sample(map[string]any{"runs": "one permutation + HashNoPad(11 inputs)", "strategies": "k1 k2 q-1 hi-1"})
 	case "glhash":
 		for n := 0; n <= req.MaxLen; n++ {
 			ms := []int{1 + rng.Intn(12), 4}
